@@ -134,8 +134,13 @@ def cold_pass(chk, binary, m, tier):
     if tier != "quick":
         pairs += [(0, 2), (2, 0), (0, 3), (3, 0), (1, 2), (2, 1), (1, 3), (3, 1)]
     executions = points_total = 0
-    for si, (a, b) in enumerate(pairs):
-        objs = names[a] + ";" + names[b]
+    # (a, b, kind): kind "" = lint a ∥ lint b; the mixed kinds put the process's very first listing (incl. WriteJSON) /
+    # Filter next to a lint run, or next to each other — on the GLOBAL registry, which only a fresh process has cold
+    scen = [(a, b, "") for (a, b) in pairs] + [(0, 1, "lj"), (0, 1, "lf"), (0, 1, "jj"), (0, 1, "fj")]
+    if tier != "quick":
+        scen += [(1, 0, "lj"), (2, 0, "lj"), (3, 0, "lj"), (1, 0, "lf"), (2, 0, "lf")]
+    for si, (a, b, kind) in enumerate(scen):
+        objs = names[a] + ";" + names[b] + (",kind=" + kind if kind else "")
         base, err = child("s%d_base" % si, "mode=exec,objs=%s" % objs)
         if base is None:
             m["internal"].append("cold-start base execution failed: %s" % err)
@@ -166,12 +171,14 @@ def cold_pass(chk, binary, m, tier):
                     m["violations"][k]["count"] += v["count"]
                 else:
                     m["violations"][k] = v
-        m["tables"].setdefault("scenario_executions", {})["cold start: lint %s ∥ lint %s [fresh process per execution, ≤1 preemption, %d points]" % (names[a], names[b], len(pts))] = len(results)
+        what = {"": "lint %s ∥ lint %s" % (names[a], names[b]), "lj": "lint %s ∥ first listing+WriteJSON" % names[a], "lf": "lint %s ∥ first Filter" % names[a],
+                "jj": "first listing ∥ listing", "fj": "first Filter ∥ first listing"}[kind]
+        m["tables"].setdefault("scenario_executions", {})["cold start: %s [global registry, fresh process per execution, ≤1 preemption, %d points]" % (what, len(pts))] = len(results)
     m["counters"]["cold_start_executions"] = executions
     m["counters"]["states"] = m["counters"].get("states", 0) + executions
     m["counters"]["validated"] = m["counters"].get("validated", 0) + executions
     m["counters"]["transitions"] = m["counters"].get("transitions", 0) + points_total
-    m["notes"].append("cold-start exploration: %d scenarios, %d executions, each in a fresh process (base schedule + every single preemption)" % (len(pairs), executions))
+    m["notes"].append("cold-start exploration: %d scenarios, %d executions, each in a fresh process (base schedule + every single preemption)" % (len(scen), executions))
     return names
 
 
